@@ -632,6 +632,13 @@ func checkDonePoll(c *Ctx, r *Report, cl *classes) {
 		return
 	}
 	isDonePoll := func(in ssa.Instruction) bool {
+		if call, isCall := in.(*ssa.Call); isCall {
+			// the poll moved into a helper that reports whether done fired
+			if f, _, ok := pollHelper(call.Call.StaticCallee()); ok && f == doneF {
+				return true
+			}
+			return false
+		}
 		sel, ok := in.(*ssa.Select)
 		if !ok {
 			return false
